@@ -373,6 +373,8 @@ func wlCellEvents(id int, sc Scenario, seed int64, pre *spg.WLRecipe, preWL *spg
 		}
 		if reflect.DeepEqual(res, res2) {
 			ev.Det = 1
+		} else if res2.Kind == "panic" && res.Kind != "panic" {
+			ev.Det = -1 // the re-run (short deliveries) was aborted: allowed by C09's second sentence, no password was built
 		} else {
 			ev.Det = 0
 		}
